@@ -6,6 +6,7 @@ Model: `NtpVerif.Model.CookieStash` (ring buffer of `cookiestash.rs`, cookie-cou
 `NtpSource::handle_timer`).  All theorems quantify over *every* operation list from the empty stash.
 -/
 import NtpVerif.Proofs.CookieStash
+import NtpVerif.Proofs.SourceSM
 
 namespace NtpVerif.C13
 open NtpVerif.CookieStash
@@ -294,6 +295,96 @@ theorem request_asks_gap (s : Stash) (h : WF s) (c : Cookie) (q' : List Cookie)
     rw [← hd] at hd'
     exact (Nat.div_lt_iff_lt_mul hpos).mp hd'
 
+
+/-! #### the delivery path: cookies arriving in responses -/
+
+/-- the last eight entries of a list: what a bounded FIFO keeps -/
+def lastEight (l : List Cookie) : List Cookie := l.drop (l.length - 8)
+
+theorem lastEight_length (l : List Cookie) : (lastEight l).length ≤ 8 := by
+  simp only [lastEight, List.length_drop]; omega
+
+theorem lastEight_lastEight_append (a b : List Cookie) : lastEight (lastEight a ++ b) = lastEight (a ++ b) := by
+  simp only [lastEight, List.length_append, List.length_drop]
+  have hsplit : a ++ b = a.take (a.length - 8) ++ (a.drop (a.length - 8) ++ b) := by
+    rw [← List.append_assoc, List.take_append_drop]
+  have hlen : (a.take (a.length - 8)).length = a.length - 8 := by
+    rw [List.length_take]; omega
+  conv => rhs; rw [hsplit, List.drop_append]
+  have h1 : List.drop (a.length + b.length - 8) (a.take (a.length - 8)) = [] :=
+    List.drop_eq_nil_of_le (by rw [hlen]; omega)
+  rw [h1, List.nil_append, hlen]
+  congr 1
+  omega
+
+theorem spec_store_eq (q : List Cookie) (c : Cookie) (hq : q.length ≤ 8) :
+    Spec.store q c = lastEight (q ++ [c]) := by
+  simp only [Spec.store, Spec.cap, lastEight, List.length_append, List.length_cons, List.length_nil]
+  split
+  · have : q.length = 8 := by omega
+    rw [this]
+    cases q with
+    | nil => simp at this
+    | cons d q' => rfl
+  · have : q.length + (0 + 1) - 8 = 0 := by omega
+    rw [this]; rfl
+
+/-- storing a list of cookies one after the other = appending them and keeping the last eight -/
+theorem foldl_store_eq (cs q : List Cookie) (hq : q.length ≤ 8) :
+    cs.foldl Spec.store q = lastEight (q ++ cs) := by
+  induction cs generalizing q with
+  | nil =>
+    simp only [List.foldl_nil, List.append_nil, lastEight]
+    have : q.length - 8 = 0 := by omega
+    rw [this]; rfl
+  | cons c cs ih =>
+    simp only [List.foldl_cons]
+    rw [spec_store_eq q c hq, ih _ (lastEight_length _), lastEight_lastEight_append]
+    simp
+
+/-- `storeAll` (the loop over `new_cookies()` in `process_message`) on a well-formed stash never fails, keeps it
+    well-formed, and is the bounded-FIFO append -/
+theorem storeAll_abs (cs : List Cookie) (st : Stash) (h : WF st) :
+    ∃ st', SourceSM.storeAll st cs = some st' ∧ WF st' ∧ abs st' = lastEight (abs st ++ cs) := by
+  have key : ∀ (cs : List Cookie) (st : Stash), WF st →
+      ∃ st', SourceSM.storeAll st cs = some st' ∧ WF st' ∧ abs st' = cs.foldl Spec.store (abs st) := by
+    intro cs
+    induction cs with
+    | nil => intro st h; exact ⟨st, rfl, h, rfl⟩
+    | cons c cs ih =>
+      intro st h
+      simp only [SourceSM.storeAll, storeChecked_eq st c h, List.foldl_cons]
+      obtain ⟨st', e, w, a⟩ := ih (store st c) (wf_store st c h)
+      exact ⟨st', e, w, by rw [a, abs_store st c h]⟩
+  obtain ⟨st', e, w, a⟩ := key cs st h
+  refine ⟨st', e, w, ?_⟩
+  rw [a, foldl_store_eq]
+  have := abs_length st
+  unfold WF at h
+  omega
+
+/-- **C13.incoming_stores_all_new_cookies** — when `handle_incoming` accepts a response, the stash afterwards holds
+    the bounded-FIFO append of ALL cookies of the response's encrypted list: the last eight of (held ++ delivered),
+    in that order — whatever their number (also more than are missing, more than eight) and sizes. Every other
+    outcome leaves the stash untouched (C07.cookies_only_when_accepted). -/
+theorem incoming_stores_all_new_cookies (s s' : SourceSM.State) (st : Stash) (now : Nat) (p : SourceSM.Pkt)
+    (a b : Nat) (bl : Option Bool) (u : Bool) (m : SourceSM.Meas) (k : Nat)
+    (hn : s.nts = some st) (hwf : WF st)
+    (h : SourceSM.handleIncoming s now (some p) a b bl = (s', .accepted u m k)) :
+    ∃ st', s'.nts = some st' ∧ WF st' ∧ abs st' = lastEight (abs st ++ p.cookiesEnc) ∧ k = p.cookiesEnc.length := by
+  obtain ⟨p', id, dl, hp, _, heq⟩ := SourceSM.accepted_iff_aux true s now (some p) a b bl u m k s' h
+  injection hp with hp; subst hp
+  obtain ⟨st', e, w, ab⟩ := storeAll_abs p.cookiesEnc st hwf
+  unfold SourceSM.processMessage at heq
+  simp only [hn, e] at heq
+  injection heq with h1 h2
+  injection h2 with _ _ hk
+  exact ⟨st', by rw [h1], w, ab, hk⟩
+
+/-- three cookies delivered to a stash holding seven: the oldest two are dropped, the three new ones are kept -/
+example : lastEight ([[1],[2],[3],[4],[5],[6],[7]] ++ [[100],[101],[102]]) =
+    [[3],[4],[5],[6],[7],[100],[101],[102]] := by decide
+
 /-! #### non-vacuity: the hypotheses are met by concrete, non-trivial states -/
 
 /-- a full stash that has wrapped around is well-formed, and storing into it evicts the oldest -/
@@ -320,3 +411,4 @@ end NtpVerif.C13
 #print axioms NtpVerif.C13.keeps_newest_eight
 #print axioms NtpVerif.C13.oldest_first
 #print axioms NtpVerif.C13.request_asks_gap
+#print axioms NtpVerif.C13.incoming_stores_all_new_cookies
